@@ -104,7 +104,7 @@ template <class C> struct Exec {
     typedef Api<C> A;
     typedef typename A::Uri Uri; typedef typename A::Seg Seg; typedef typename A::QL QL; typedef typename A::Range Range;
 
-    struct TextBuf { C* base = nullptr; int win = 0; int total = 0; bool alive = true; };
+    struct TextBuf { C* base = nullptr; int win = 0; int total = 0; bool alive = true; std::string copy; };
     struct USlot {
         Uri* u = nullptr; int state = S_EMPTY; int mgr = 0; bool owned = false;
         std::set<int> texts; std::set<int> deps; int producer = -1;
@@ -264,6 +264,7 @@ template <class C> struct Exec {
         C* j = (C*)arena_alloc(A_TEXT, 16 * sizeof(C), 1, perm(0, RS_OUT_OF_WINDOW));
         for (int i = 0; i < 16; i++) j[i] = (C)('0' + (i % 10));
         TextBuf tb; tb.base = base; tb.win = win; tb.total = total; tb.alive = true;
+        tb.copy.assign((const char*)base, (size_t)total * sizeof(C));
         texts.push_back(tb);
         return (int)texts.size() - 1;
     }
@@ -278,6 +279,17 @@ template <class C> struct Exec {
         set_perm(t.base, n, perm(0, RS_DEAD_SOURCE));
     }
 
+    // independent of the store monitor: every live input text must still hold the bytes it was given
+    void verify_texts(const char* when) {
+        for (size_t t = 0; t < texts.size(); t++) {
+            TextBuf& tb = texts[t];
+            if (!tb.alive) continue;
+            if (memcmp(tb.base, tb.copy.data(), tb.copy.size()) != 0) {
+                violate(V_STORE_INPUT_TEXT, std::string("caller-supplied input text was altered (found by comparison ") + when + "; the store was not made by instrumented code)", false);
+                tb.copy.assign((const char*)tb.base, tb.copy.size());
+            }
+        }
+    }
     void mark_dependents_stale(int slot) {
         for (int i = 0; i < N_USLOTS; i++)
             if (i != slot && us[i].deps.count(slot) && us[i].state == S_VALID) us[i].state = S_STALE;
@@ -504,6 +516,8 @@ template <class C> struct Exec {
         for (int s = 0; s < N_USLOTS && !g.abort_run; s++)
             if (us[s].state == S_VALID || us[s].state == S_STALE) { free_slot(n, s, 1, 1); us[s].state = S_FREED; }
         if (g.abort_run) return;
+        verify_texts("at the end of the run");
+        { int bad = heap_check_all_redzones(); if (bad) violate(V_HEAP_OVERFLOW, std::to_string(bad) + " live block(s) have a damaged red zone at the end of the run", false); }
         int live = heap_live_count();
         if (live) violate(V_LEAK_AT_END, "at the end of the run, after every object was released through its release call, " + std::to_string(live) + " block(s) are outstanding: " + heap_live_desc(), false);
     }
